@@ -127,3 +127,13 @@ func (sn *Node) VerifReservationDetails() map[string]string {
 	}
 	return res
 }
+
+// VerifSortQueues returns the children of the queue in the order the scheduler tries them.
+func (sq *Queue) VerifSortQueues() []*Queue {
+	return sq.sortQueues()
+}
+
+// VerifSortApplications returns the applications of the leaf queue in the order the scheduler tries them.
+func (sq *Queue) VerifSortApplications(withPlaceholdersOnly bool) []*Application {
+	return sq.sortApplications(withPlaceholdersOnly)
+}
